@@ -10,6 +10,8 @@ from ..engines.enum import product, run_enum, replay_case
 from ..sys_array import viol
 
 FOREIGN = ['file', 'nesteddir', 'symfile', 'symdir', 'dangling', 'dir-named-README.txt', 'dir-named-metadata.json']
+# a regular file called arrayvalues.bin is no part of a RAGGED array's top level: foreign there
+FOREIGN_RAGGED_TOP = ['file-named-arrayvalues.bin']
 ROOT = 'root'
 T = os.path.join(ROOT, 't.darr')
 
@@ -67,6 +69,11 @@ def plant(loc, kind):
     if kind == 'dangling':
         os.symlink('/nonexistent/dv/x', os.path.join(loc, 'dang'))
         return ['dang']
+    if kind.startswith('file-named-'):
+        name = kind[len('file-named-'):]
+        with open(os.path.join(loc, name), 'wb') as f:
+            f.write(b'not Darr data: a user file with this name\n')
+        return [name]
     if kind.startswith('dir-named-'):
         name = kind[len('dir-named-'):]
         p = os.path.join(loc, name)
@@ -184,6 +191,7 @@ def eval_delete_stale(case):
     return V, ('delete-stale', tkind, occ, exc_class(v) if w == 'raises' else 'returns'), 1
 
 
+FAILING_CREATORS = ['asarray-genfails', 'asarray-badchunk', 'asraggedarray-genfails']
 CREATORS = ['asarray', 'create_array', 'asraggedarray', 'create_raggedarray', 'Array.copy', 'RaggedArray.copy',
             'Array.archive', 'RaggedArray.archive']
 OCCUPANTS = ['nothing', 'array-meta', 'ragged', 'array-larger', 'array-smaller', 'plaindir', 'file']
@@ -221,7 +229,7 @@ def eval_create(case):
     target = T if 'archive' not in creator else os.path.join(ROOT, f'arch.tar.{ctype}')
     planted = make_occupant(occ, target)
     before = snapshot.snap(ROOT)
-    call = {
+    call = None if creator in FAILING_CREATORS else {
         'asarray': lambda: darr.asarray(target, np.arange(3, dtype='<i4'), overwrite=ow),
         'create_array': lambda: darr.create_array(target, shape=(2, 2), overwrite=ow),
         'asraggedarray': lambda: darr.asraggedarray(target, [[1.5], [2.5, 3.5]], overwrite=ow),
@@ -231,6 +239,16 @@ def eval_create(case):
         'Array.archive': lambda: src_a.archive(target, compressiontype=ctype, overwrite=ow),
         'RaggedArray.archive': lambda: src_r.archive(target, compressiontype=ctype, overwrite=ow),
     }[creator]
+    if creator in FAILING_CREATORS:
+        def gen(kind):
+            yield np.arange(3, dtype='<i4') if 'ragged' not in creator else [1.5, 2.5]
+            if kind == 'badchunk':
+                yield np.zeros((2, 2), dtype='<i4')
+            else:
+                raise RuntimeError('data source fails after the first chunk')
+        call = {'asarray-genfails': lambda: darr.asarray(target, gen('raise'), overwrite=ow),
+                'asarray-badchunk': lambda: darr.asarray(target, gen('badchunk'), overwrite=ow),
+                'asraggedarray-genfails': lambda: darr.asraggedarray(target, gen('raise'), overwrite=ow)}[creator]
     w, v = outcome_of(call)
     after = snapshot.snap(ROOT)
     V = []
@@ -251,7 +269,7 @@ def eval_create(case):
         if lost or outside:
             V.append(viol('foreign', creator, f'occupant={occ},overwrite={ow}', 'foreign data removed or modified',
                           f'{creator}(overwrite={ow}) onto {occ}: lost/changed {lost + outside}'))
-        if occ == 'nothing' and w == 'raises':
+        if occ == 'nothing' and w == 'raises' and creator not in FAILING_CREATORS:
             V.append(viol('foreign', creator, 'occupant=nothing', f'creation on a free path raises {exc_class(v)}', repr(v)[:120]))
     rmtree(ROOT)
     return V, ('create', creator, occ, ow, w), 1
@@ -268,6 +286,8 @@ def build_cases():
                       'form': ['object', 'str', 'Path']})
     cases += product({'sub': ['delete-foreign'], 'target': ['ragged'], 'location': ['top', 'values', 'indices'],
                       'foreign': FOREIGN, 'form': ['object', 'str', 'Path']})
+    cases += product({'sub': ['delete-foreign'], 'target': ['ragged'], 'location': ['top'], 'foreign': FOREIGN_RAGGED_TOP,
+                      'form': ['object', 'str', 'Path']})
     cases += product({'sub': ['delete-wrongkind'], 'fn': ['delete_array', 'delete_raggedarray'],
                       'target': ['plaindir', 'file', 'missing', 'array', 'ragged'], 'form': ['str', 'Path', 'object']},
                      valid=lambda c: not (c['fn'] == 'delete_array' and c['target'] == 'array')
@@ -277,6 +297,7 @@ def build_cases():
     cases += product({'sub': ['create'], 'creator': CREATORS, 'occupant': OCCUPANTS, 'overwrite': [False, True]})
     cases += product({'sub': ['create'], 'creator': ['Array.archive', 'RaggedArray.archive'], 'occupant': OCCUPANTS,
                       'overwrite': [False, True], 'ctype': ['gz', 'bz2']})
+    cases += product({'sub': ['create'], 'creator': FAILING_CREATORS, 'occupant': OCCUPANTS, 'overwrite': [False, True]})
     cases += product({'sub': ['delete-stale'], 'target': ['array', 'ragged'], 'occupant': ['userdir', 'otherkind', 'nothing']})
     return cases
 
